@@ -17,6 +17,7 @@ import (
 	"reflect"
 	"runtime"
 	"strconv"
+	"strings"
 	"sync"
 	"sync/atomic"
 
@@ -30,7 +31,9 @@ type workload struct {
 	P        int           `json:"p"`
 	Q        int           `json:"q"`
 	D        int           `json:"d"`
+	D2       int           `json:"d2"`
 	Doc      interface{}   `json:"doc"`
+	Doc2     interface{}   `json:"doc2"` // present: the second goroutine searches this document instead of the shared one
 	Allowed1 []interface{} `json:"allowed1"`
 	Allowed2 []interface{} `json:"allowed2"`
 	OneShot  bool          `json:"oneshot"`
@@ -82,12 +85,13 @@ func soloCount(call func(interface{}) (interface{}, error), doc interface{}) (in
 
 // runSchedule replays one interleaving; returns the two observations and the step at which the shared
 // document first differed from its initial value (-1: never).
-func runSchedule(c1, c2 func(interface{}) (interface{}, error), doc interface{}, sched []int) ([2]Obs, int) {
+func runSchedule(c1, c2 func(interface{}) (interface{}, error), doc interface{}, doc2 interface{}, sched []int) ([2]Obs, int) {
 	var gates sync.Map
 	calls := []func(interface{}) (interface{}, error){c1, c2}
+	docsOf := []interface{}{doc, doc2}
 	gs := make([]*gate, 2)
 	var res [2]Obs
-	before := deepCopy(doc)
+	before := deepCopy([]interface{}{doc, doc2})
 	changedAt := -1
 	setHooks(func() {
 		v, ok := gates.Load(goid())
@@ -103,7 +107,7 @@ func runSchedule(c1, c2 func(interface{}) (interface{}, error), doc interface{},
 		gs[i] = g
 		go func(i int) {
 			gates.Store(goid(), g)
-			res[i] = direct(func() (interface{}, error) { return calls[i](doc) })
+			res[i] = direct(func() (interface{}, error) { return calls[i](docsOf[i]) })
 			gates.Delete(goid())
 			close(g.done)
 		}(i)
@@ -124,7 +128,7 @@ func runSchedule(c1, c2 func(interface{}) (interface{}, error), doc interface{},
 	}
 	for k, gi := range sched {
 		step(gs[gi-1])
-		if changedAt < 0 && !reflect.DeepEqual(before, doc) {
+		if changedAt < 0 && !reflect.DeepEqual(before, []interface{}{doc, doc2}) {
 			changedAt = k
 		}
 	}
@@ -143,7 +147,7 @@ func runSchedule(c1, c2 func(interface{}) (interface{}, error), doc interface{},
 		}
 	}
 	setHooks(nil)
-	if changedAt < 0 && !reflect.DeepEqual(before, doc) {
+	if changedAt < 0 && !reflect.DeepEqual(before, []interface{}{doc, doc2}) {
 		changedAt = len(sched)
 	}
 	return res, changedAt
@@ -182,8 +186,13 @@ func readWorkloads(files []string) ([]workload, error) {
 	return ws, nil
 }
 
+func (w *workload) twoDocs() bool {
+	a, ok := w.Doc2.([]interface{})
+	return ok && len(a) > 0
+}
+
 func wid(w *workload) int {
-	id := w.P*10000 + w.Q*100 + w.D*2
+	id := w.P*100000 + w.Q*1000 + w.D*20 + w.D2*2
 	if w.OneShot {
 		id++
 	}
@@ -245,9 +254,13 @@ func cmdSched(args []string) int {
 			continue
 		}
 		mk := func() interface{} { return decodeValue(w.Doc) }
+		mk2 := mk
+		if w.twoDocs() {
+			mk2 = func() interface{} { return decodeValue(w.Doc2) }
+		}
 		if *phase == "count" {
 			n1, o1 := soloCount(c1, mk())
-			n2, o2 := soloCount(c2, mk())
+			n2, o2 := soloCount(c2, mk2())
 			sum.Evaluations += 2
 			if m, _ := matchOutcome(o1, w.Allowed1, false); !m {
 				add(w, "sched-solo", "solo call 1: "+o1.String(), nil, false)
@@ -264,12 +277,16 @@ func cmdSched(args []string) int {
 		}
 		for _, s := range w.Scheds {
 			doc := mk()
-			res, changedAt := runSchedule(c1, c2, doc, s)
+			doc2 := doc
+			if w.twoDocs() {
+				doc2 = mk2()
+			}
+			res, changedAt := runSchedule(c1, c2, doc, doc2, s)
 			nsched++
 			sum.Cases++
 			sum.Evaluations += 2
 			isCanary := false
-			if *canary > 0 && nsched%*canary == 0 && res[1].Kind == "ok" {
+			if *canary > 0 && nsched%*canary == 0 && res[1].Kind == "ok" && !strings.Contains(mustJSON(w.Allowed2), "unspec") {
 				res[1] = Obs{Kind: "ok", Value: "☃canary"}
 				isCanary = true
 				sum.CanariesIn++
@@ -323,17 +340,21 @@ func cmdRace(args []string) int {
 			continue
 		}
 		doc := decodeValue(w.Doc)
+		doc2 := doc
+		if w.twoDocs() {
+			doc2 = decodeValue(w.Doc2)
+		}
 		var wg sync.WaitGroup
 		for g := 0; g < *gor; g++ {
 			wg.Add(1)
 			go func(g int) {
 				defer wg.Done()
 				for it := 0; it < *iters; it++ {
-					call, allowed := c1, w.Allowed1
+					call, allowed, dd := c1, w.Allowed1, doc
 					if (g+it)%2 == 1 {
-						call, allowed = c2, w.Allowed2
+						call, allowed, dd = c2, w.Allowed2, doc2
 					}
-					o := direct(func() (interface{}, error) { return call(doc) })
+					o := direct(func() (interface{}, error) { return call(dd) })
 					atomic.AddInt64(&total, 1)
 					if m, _ := matchOutcome(o, allowed, false); !m {
 						if atomic.AddInt64(&wrong, 1) == 1 {
